@@ -80,5 +80,19 @@ def main() -> int:
     return ctx.finish()
 
 
+def _exit(rc: int) -> None:
+    """pyarrow worker threads that are still winding down can abort the interpreter during normal
+    finalisation (SIGABRT after the verdict was printed); leave without finalisation instead."""
+    import shutil
+
+    from . import common
+
+    sys.stdout.flush()
+    sys.stderr.flush()
+    if common._scratch_root:
+        shutil.rmtree(common._scratch_root, ignore_errors=True)
+    os._exit(rc)
+
+
 if __name__ == "__main__":
-    sys.exit(main())
+    _exit(main())
